@@ -63,3 +63,47 @@ def c10_r15(chk, facts, P, rule='C10-R15'):
                    'ProgCounter() (load address, without the PHASE offset) is read in a pseudo-instruction handler: '
                    'alignment / reservation arithmetic on it is wrong inside PHASE')
     return n
+
+
+def c03_r35(chk, facts, rule='C03-R35'):
+    chk.rule(rule, 'as.c: the position callbacks (*_GetPos, called for every diagnostic) build their text in fixed String '
+             'buffers from macro arguments and file names of any length; none of them uses an unbounded copy (strcpy, '
+             'strcat, sprintf) - only the strmax*/as_sn* family with the buffer size (F85: IRP_GetPos copied a 2000 '
+             'character IRP argument with strcpy and crashed)', min_instances=5)
+    u = facts.unit('as.c')
+    n = 0
+    for f in u.funcs.values():
+        if f.entry is None or not f.name.endswith('_GetPos'):
+            continue
+        n += 1
+        bad = [(ln, callee_name(m)) for b, i, ln, m in f.calls({'strcpy', 'strcat', 'sprintf', 'vsprintf', 'stpcpy'})]
+        chk.ob(rule, 'as.c:%s' % f.name, not bad, f.loc(bad[0][0] if bad else None),
+               'bounded copies only' if not bad else
+               '%s() into a fixed-size position buffer: the source (macro argument, file name) has no length limit, a long '
+               'one overflows the buffer when a diagnostic is printed inside the expansion' % bad[0][1])
+    return n
+
+
+def c03_r36(chk, facts, rule='C03-R36'):
+    chk.rule(rule, 'as.c ProcessIRPNArgs(): the parameter count of IRPN, an arbitrary user expression, is compared with an '
+             'upper bound (> constant) as well as with zero before it is accepted; ExpandIRPN() computes 1 + 2*count and '
+             'pads count - 1 arguments (F86: irpn 1073741824,x overflowed the sum and allocated 2^30 strings)', min_instances=1)
+    f = facts.unit('as.c').funcs['ProcessIRPNArgs']
+    upper = lower = False
+    for b, blk in f.blocks.items():
+        c = blk.get('cond')
+        if c is None:
+            continue
+        for x in walk(c):
+            if isinstance(x, (list, tuple)) and x and x[0] == 'b' and x[1] in ('>', '>=', '<', '<='):
+                l, r = nocast(x[2]), nocast(x[3])
+                if l[0] == 'm' and l[2].endswith('.ParamCnt') and const_val(r) is not None:
+                    if x[1] in ('>', '>=') and const_val(r) > 0:
+                        upper = True
+                    if x[1] in ('<', '<='):
+                        lower = True
+    chk.ob(rule, 'as.c:ProcessIRPNArgs:ParamCnt-bounds', upper and lower, f.loc(),
+           'count tested against zero and against an upper constant' if upper and lower else
+           'the IRPN count is %s: a huge count overflows 1 + 2*count in ExpandIRPN() and the padding loop allocates count '
+           'strings (hang / memory exhaustion)' % ('not compared with an upper bound' if lower else 'not range-checked'))
+    return 1
